@@ -3,9 +3,13 @@
 import json, sys
 sys.path.insert(0, '/verif')
 from vf.verus import build_unit, default_cfg
-from vf.props import UNIT_CONFIGS
+from vf.props import UNIT_CONFIGS, PROPS
 out = {}
-for unit, cfgs in UNIT_CONFIGS.items():
+allcfg = {u: list(c) for u, c in UNIT_CONFIGS.items()}
+for pr in PROPS.values():
+    for u, c in pr.get('verus_configs', {}).items():
+        allcfg[u] = allcfg.get(u, []) + [x for x in c if x not in allcfg.get(u, [])]
+for unit, cfgs in allcfg.items():
     for suffix, feats in cfgs:
         path, ex = build_unit(unit, default_cfg(feats), suffix, outdir='/verif/build/shapes')
         for it in ex.log.items:
